@@ -18,6 +18,16 @@ def search(rec, direction):
     a, b = lst[-1][1], lst[-1][2]
     vecs = [t for t in lst if not isinstance(t[0], str)]
     n = len(vecs)
+    M0 = rec["A"] if direction == "forward" else rec["B"]
+    for tag, e, xp, yp in rec.get("probes", {}).get("fw" if direction == "forward" else "ad", []):
+        ref = M0 @ xp
+        if np.abs(ref - yp).max(initial=0) > 1e-9 * (1 + np.abs(ref).max(initial=0)):
+            kind = ("Op(c x) != c Op(x) for c = 2**%d" % e) if tag == "scale" else "Op(x) differs for the same x given with an integer dtype"
+            return {"family": rec["family"], "params": rec["params"], "direction": direction, "kind": kind, "probe": tag, "exp": e,
+                    "x": [str(t) for t in xp], "observed": [str(t) for t in yp], "expected": [str(t) for t in ref]}
+    nprobe = len(rec.get("probes", {}).get("fw" if direction == "forward" else "ad", []))
+    vecs = vecs[:len(vecs) - nprobe]
+    n = len(vecs)
     x, fx = vecs[0]
     y, fy = vecs[1]
     nb = 2 if (rec["kind"] == "real" and rec["family"] in zoo.COMPLEX_INPUT_OK and "apply_columns" not in str(rec["params"].get("expr", ""))) else 0    # trailing (Re, Im) pair of the complex-input probe
@@ -52,7 +62,15 @@ def replay(rp):
     f = W.fwd if rp["direction"] == "forward" else W.adj
     n = W.N if rp["direction"] == "forward" else W.M
     cv = lambda L: np.array([complex(t) for t in L])
-    if rp["kind"].startswith("Op(x + i y)"):
+    if rp.get("probe") in ("scale", "int64"):
+        x = cv(rp["x"])
+        x = x if W.cplx else x.real
+        if rp["probe"] == "scale":
+            bad = np.abs(np.array(f(x * 2.0 ** rp["exp"])) * 2.0 ** (-rp["exp"]) - f(x)).max() > 1e-9 * (1 + np.abs(f(x)).max())
+        else:
+            raw = op.matvec if rp["direction"] == "forward" else op.rmatvec
+            bad = np.abs(np.asarray(raw(x.astype(np.int64)), dtype=float) - np.asarray(raw(x.astype(float)))).max() > 1e-9 * (1 + np.abs(raw(x.astype(float))).max())
+    elif rp["kind"].startswith("Op(x + i y)"):
         raw = op.matvec if rp["direction"] == "forward" else op.rmatvec
         x, y = cv(rp["x"]).real, cv(rp["y"]).real
         z = np.asarray(raw(x + 1j * y))
@@ -104,6 +122,22 @@ def main(tier):
                                  "broken": "Corr.Check.checkR/checkC code %d (implementation vs mv of its own matrix)" % code}, no_input=True)
                 else:
                     R.violation("%s is not linear: %s for %s %s" % (direction, rp["kind"], rec["family"], rec["params"]), rp)
+    # known finding C02-int-input: families that allocate the output with the INPUT's dtype (integer input truncated)
+    known = [k for k in common.load_known() if k.get("id") == "C02-int-input"]
+    if known:
+        seen = set()
+        for rec in recs:
+            if rec["family"] in zoo.INT_INPUT_BAD and rec["family"] not in seen and "error" not in rec:
+                seen.add(rec["family"])
+                try:
+                    op = zoo.build(rec["family"], rec["params"])
+                    xi = np.arange(1, op.shape[1] + 1)
+                    yi, yf = np.asarray(op.matvec(xi.astype(np.int64))), np.asarray(op.matvec(xi.astype(float)))
+                    differs = yi.shape != yf.shape or np.abs(yi - yf).max(initial=0) > 1e-9 * (1 + np.abs(yf).max(initial=0))
+                except Exception:
+                    differs = True
+                if differs:
+                    R.known_finding("C02-int-input", known[0]["what"])
     R.cov.update(
         obligations=len(thms) + 2 * len(recs),
         discharged=len(thms) + sum(2 - len({1, 2} & set(codes.get(r["id"], []))) for r in recs if "error" not in r),
